@@ -39,6 +39,7 @@ func init() {
 	vk.Register("C03.sim", simCampaign("C03", func(m *Monitors) { m.Vote = true }, false))
 	vk.Register("C07.sim", simCampaign("C07", func(m *Monitors) { m.Pace = true }, false))
 	vk.Register("C06.sim", simCampaign("C06", func(m *Monitors) { m.Exec = true; m.Commit = true }, true))
+	vk.Register("C13.sim", simCampaign("C13", func(m *Monitors) { m.Blocks = true; m.Commit = true }, true))
 }
 
 const simRule = "executions of n in {4,7} REAL replica stacks (3 rulesets, eddsa/ecdsa/bls12, cache on/off, round-robin/fixed/scripted leaders, batch 1..3) under a PRNG scheduler over a simulated network: " +
@@ -58,6 +59,9 @@ func simCampaign(prop string, enable func(*Monitors), clients bool) vk.Campaign 
 		case "C07":
 			r.Rule = simRule + "pacemaker monitor polled after every handled message: view, high-QC view, high-TC view, committed view never decrease; one ViewChangeEvent per view entered, in order; a node leaves view v only if the " +
 				"sign log holds a quorum of distinct real signers for a block of a view >= v or for timeouts of a view >= v; the certificates it holds are ground-truth valid; non-trivial: a node advanced and the run contained a fault step; distinct: full step trace"
+		case "C13":
+			r.Rule = simRule + "commands enter through real ClientIO.ExecCommand calls, scripted Byzantine leaders propose hostile batches (repeated, re-proposed, out-of-order commands); stored-block monitor at the end of every execution: " +
+				"every block an honest replica holds under hash h - after proposals, fetches, commits, execution and pruning - still serializes to bytes with digest h; non-trivial: >=2 honest replicas executed commands; distinct: full step trace"
 		case "C06":
 			r.Rule = simRule + "commands enter through real ClientIO.ExecCommand calls (one goroutine per waiting client, retry after a fork abort); execution monitor: at most one success per (client,seq) and replica, success only after " +
 				"the replica dispatched an ExecuteEvent holding the command, every success command is in the replica's committed chain, executed count <= distinct committed commands, digest = commands in chain order when every " +
@@ -87,7 +91,7 @@ func simCampaign(prop string, enable func(*Monitors), clients bool) vk.Campaign 
 				nt = voted >= 1 && c.FaultSteps > 0
 			case "C07":
 				nt = advanced >= 1 && c.FaultSteps > 0
-			case "C06":
+			case "C06", "C13":
 				ex := 0
 				for _, a := range c.Actors {
 					if a.Judged() && a.CIO != nil && a.CIO.CmdCount() > 0 {
